@@ -528,7 +528,97 @@ func zoneNames(v reflect.Value) string {
 	return out
 }
 
+// RFix: pointers to byte arrays under a caller-supplied schema with fixed types (schema generation never produces
+// fixed, so only files written by someone else reach this)
+type RFix struct {
+	F *[4]byte  `json:"f"`
+	G *[16]byte `json:"g"`
+	Z int64     `json:"z"`
+}
+
+// driveRetainFixed: a file of one-record blocks with fixed values, written by the harness's own container writer,
+// read with every record kept while the following blocks are decoded (whatever a decoded pointer refers to must
+// not be the reader's block buffer)
+func driveRetainFixed(c *driverCtx, run int) {
+	const sj = `{"type":"record","name":"RFix","fields":[{"name":"f","type":["null",{"type":"fixed","name":"F4","size":4}]},{"name":"g","type":["null",{"type":"fixed","name":"F16","size":16}]},{"name":"z","type":"long"}]}`
+	codec := codecs3[run%3]
+	n := 6 + c.rng.Intn(6)
+	typ := reflect.TypeOf(RFix{})
+	inputs := make([]any, n)
+	var blocks [][2]any
+	var pendingRaw []byte
+	pending := 0
+	for i := 0; i < n; i++ {
+		var v RFix
+		var b []byte
+		if i%4 != 3 {
+			f := [4]byte{byte(i), byte(i + 1), byte(c.rng.Intn(256)), 0xF4}
+			v.F = &f
+			b = append(appendVar(b, 1), f[:]...)
+		} else {
+			b = appendVar(b, 0)
+		}
+		if i%3 != 2 {
+			var g [16]byte
+			copy(g[:], payload(c.rng, 16))
+			v.G = &g
+			b = append(appendVar(b, 1), g[:]...)
+		} else {
+			b = appendVar(b, 0)
+		}
+		v.Z = int64(1000 + i)
+		b = appendVar(b, v.Z)
+		inputs[i] = projectValue(reflect.ValueOf(v))
+		pendingRaw = append(pendingRaw, b...)
+		pending++
+		if run%2 == 0 || pending == 2 || i == n-1 { // one record per block, or two
+			blocks = append(blocks, [2]any{pending, pendingRaw})
+			pendingRaw, pending = nil, 0
+		}
+	}
+	file := buildContainer([]byte(sj), codec, true, []byte("0123456789abcdef"), blocks)
+	type kept struct {
+		v    reflect.Value
+		bank *avro.ResourceBank
+	}
+	var ks []*kept
+	var checkpoints []any
+	checkpoint := func(after string) {
+		var idx, ids []int
+		var vs []any
+		zn := []string{}
+		for i, k := range ks {
+			idx = append(idx, i+1)
+			vs = append(vs, safeProject(k.v))
+			ids = append(ids, bankID(k.bank))
+			zn = append(zn, "")
+		}
+		checkpoints = append(checkpoints, map[string]any{"after": after, "open": orEmptyInts(idx), "values": orEmpty(vs), "banks": orEmptyInts(ids), "zn": zn})
+	}
+	var rerr error
+	pan := catch(func() {
+		rerr = avro.ReadFile(makeReader(readerKinds[run%len(readerKinds)], file), RFix{}, func(val unsafe.Pointer, rb *avro.ResourceBank) error {
+			cp := reflect.New(typ).Elem()
+			cp.Set(reflect.NewAt(typ, val).Elem())
+			ks = append(ks, &kept{v: cp, bank: rb})
+			if len(ks)%3 == 0 {
+				checkpoint(fmt.Sprintf("record %d", len(ks)))
+			}
+			return nil
+		})
+	})
+	checkpoint("end of read")
+	for _, k := range ks {
+		k.bank.Close()
+	}
+	c.rec.NewCase()
+	c.rec.Emit(fmt.Sprintf("C10|retain-fixed-pointers|%s", codec), map[string]any{"op": "retain", "inputs": inputs, "checkpoints": checkpoints, "err": errString(rerr), "panic": pan, "delivered": len(ks)})
+}
+
 func driveC10(c *driverCtx) error {
+	for run := 0; run < c.pick(6, 120); run++ {
+		driveRetainFixed(c, run)
+	}
 	for run := 0; run < c.pick(6, 300); run++ {
 		driveBankOps(c, run)
 	}
